@@ -10,10 +10,10 @@ from engines import bench
 
 ID = 'C16'
 SHARDS = {'quick': 8, 'thorough': 16}
-RULE = ("alphabet of 31 calls over a small world (containers c1, c2, an equal-named twin of c1, undeclared c3, plate "
+RULE = ("alphabet of 33 calls over a small world (containers c1, c2, an equal-named twin of c1, undeclared c3, plate "
         "p1): uses(x | list | twin), create_container(new | duplicate), create_solution(new | duplicate | declared "
         "container solvent | undeclared container solvent), create_solution_from(declared | undeclared source), "
-        "transfer(declared | undeclared source | undeclared destination | into plate), remove / dilute / fill_to "
+        "transfer(declared | undeclared source | undeclared destination | into plate), remove / dilute (also with new_name) / fill_to "
         "(declared | undeclared), start_stage / end_stage (a | b | 'all'), bake. Exhaustive over all sequences of "
         "length <= 3 (quick) / <= 4 (thorough), cut at the first raising bake; plus Hypothesis-generated "
         "histories of up to 30 calls. Oracle: reference protocol model {declared, used, steps, open stage, stage "
@@ -33,7 +33,7 @@ CALLS = ['uses:c1', 'uses:c2', 'uses:p1', 'uses:[c2,p1]', 'uses:twin',
          'solution:s1', 'solution:c1', 'solution:s2/c2', 'solution:s3/c3',
          'solution_from:f1/c1', 'solution_from:f2/c3',
          'transfer:c1>c2', 'transfer:c3>c2', 'transfer:c1>c3', 'transfer:c1>p1', 'transfer:twin>c2',
-         'remove:c1', 'remove:c3', 'dilute:c1', 'dilute:c3', 'fill_to:c2', 'fill_to:c3', 'fill_to:p1',
+         'remove:c1', 'remove:c3', 'dilute:c1', 'dilute:c3', 'dilute_as:c1', 'fill_to:c2', 'fill_to:c3', 'fill_to:p1',
          'start:a', 'start:b', 'start:all', 'end:a', 'end:b', 'end:all', 'bake']
 
 
@@ -77,6 +77,8 @@ class World16:
             return r.remove(h[arg], self.pp.Substance.ENZYME)
         if kind == 'dilute':
             return r.dilute(h[arg], s, '0.5 M', w)
+        if kind == 'dilute_as':
+            return r.dilute(h[arg], s, '0.5 M', w, 'renamed')
         if kind == 'fill_to':
             return r.fill_to(h[arg], w, '100 uL' if arg == 'p1' else '1500 mL')
         if kind == 'start':
@@ -120,6 +122,8 @@ def chemistry_feasible(pp, accepted):
                 env[arg] = env[arg].remove(pp.Substance.ENZYME)
             elif kind == 'dilute':
                 env[arg] = env[arg].dilute(S, '0.5 M', W)
+            elif kind == 'dilute_as':
+                env[arg] = env[arg].dilute(S, '0.5 M', W, 'renamed')
             elif kind == 'fill_to':
                 env[arg] = env[arg].fill_to(W, '100 uL' if arg == 'p1' else '1500 mL')
     except KeyError:
@@ -185,7 +189,7 @@ class Model:
             if a not in self.declared or b not in self.declared:
                 return {'ValueError', 'ok'}, lambda: (self._step(), self._poison(a, b), self.used.update([a, b]))
             return {'ok'}, lambda: (self.used.update([a, b]), self._step())
-        if kind in ('remove', 'dilute', 'fill_to'):
+        if kind in ('remove', 'dilute', 'dilute_as', 'fill_to'):
             if arg not in self.declared:
                 return {'ValueError', 'ok'}, lambda: (self._step(), self._poison(arg), self.used.add(arg))
             return {'ok'}, lambda: (self.used.add(arg), self._step())
